@@ -434,6 +434,13 @@ def make_case(seed, i, force_end=None):
         fl = M.TARGET_FLAGS.get(t, [])
         if fl:
             config_args = ["--config", "%s.%s=%s" % (t, ca.choice(fl), ca.choice(["true", "false"]))]
+    if invalid_from_start:
+        # the file that keeps the package invalid for good is never saved in place, whichever kind of edit picked it: between
+        # truncation and write it is empty, an empty model file is a valid one, and a regeneration that reads it right then
+        # rightly writes output (false alarms of thorough seeds 7373 and 9191)
+        for e_ in edits:
+            if e_.get("kind") in ("write", "backup") and e_.get("path") == invalid_from_start:
+                e_["kind"] = "atomic"
     doc = {"files": files0, "cwd": "/w/pkg", "edits": edits, "sched": sched, "faults": faults, "config_args": config_args,
            "mapseed": rng.next() % (1 << 31) + 1, "seed": seed,
            "case": {"i": i, "targets": targets, "imports": len(pkg.imports), "versions": len(pkg.versions), "edit_log": log,
